@@ -730,6 +730,7 @@ class Eval:
         self.per_fn = {}
         self.held = None       # (fname, enc args, [arrays of the port's previous result], [their snapshots])
         self.bufs = {}         # fname -> list of persistent argument arrays, overwritten in place from case to case
+        self.shared_seen = {}  # fname -> cases already tried with one array object passed for two parameters
 
     def _count(self, fname, what):
         d = self.per_fn.setdefault(fname, {})
@@ -820,6 +821,41 @@ class Eval:
             self.acc.violation("reused_argument_buffers", dict(case, kind="reused", prev_args=prev), val, 1e-12, {}, fl)
         self.bufs[("prev", fname)] = enc_args(args)
 
+    def _shared_argument(self, fname, args, case, fl):
+        """The caller passes ONE array object for two parameters of the same shape (a state whose velocity equals its
+        position, a start that is also the goal): the port must answer what the reference answers for two separate arrays
+        holding those values.  (A kernel that updates one argument in place and then reads the other is only wrong here.)
+        First 8 cases of every function that has such a pair; integrators excepted (their step function is a case of its own)."""
+        if fname in INTEGRATED or fname == "InverseDynamicsTrajectory":
+            return
+        idx = [i for i, a in enumerate(args) if isinstance(a, np.ndarray) and a.ndim >= 1]
+        pair = next(((i, j) for k, i in enumerate(idx) for j in idx[k + 1:] if args[i].shape == args[j].shape), None)
+        if pair is None:
+            return
+        n = self.shared_seen.get(fname, 0)
+        if n >= 8:
+            return
+        self.shared_seen[fname] = n + 1
+        i, j = pair
+        sep = [np.array(a, dtype=np.float64, copy=True) if isinstance(a, np.ndarray) else a for a in args]
+        sep[j] = sep[i].copy()
+        try:
+            want = getattr(self.ref, fname)(*sep)
+        except Exception:
+            return
+        sh = [np.array(a, dtype=np.float64, copy=True) if isinstance(a, np.ndarray) else a for a in args]
+        sh[j] = sh[i]
+        c = dict(case, kind="shared_argument", shared=[i, j])
+        self.acc.evals += 1
+        try:
+            out = getattr(self.mr, fname)(*sh)
+        except Exception as e:
+            self.acc.violation("one_array_for_two_parameters", c, repr(e)[:200], None, {}, fl)
+            return
+        st, val = compare(out, want, 1e-9)
+        if st not in ("ok", "ref_not_finite"):
+            self.acc.violation("one_array_for_two_parameters", c, val, 1e-9, {}, fl)
+
     def case(self, fname, args, opts, part=None, idx=None):
         if opts.get("kind") == "ik":
             return self.case_ik(fname, args, part, idx)
@@ -840,6 +876,7 @@ class Eval:
             return
         self._hold(fname, args, p)
         self._reused_buffers(fname, args, p, case, fl)
+        self._shared_argument(fname, args, case, fl)
         st, val = compare(p, r, tol)
         if st == "ref_not_finite":
             acc.skip("reference_not_finite")
